@@ -265,6 +265,11 @@ class Ref:
             P = U.overlay(P, extraP)
         if extraD:
             D = U.overlay(D, extraD)
+        for which, opts in s.get("chain") or []:
+            if which == "P":
+                P = U.overlay(P, opts)
+            else:
+                D = U.overlay(D, opts)
         o2 = U.overlay(U.overlay(D, o), P)
         impl, tag = self._select(d, did, o2)
         self.selected.append((did, tag))
@@ -399,13 +404,18 @@ class Ref:
             out.add("*")
         elif k == "ds":
             did = str(spec["id"])
-            key = (did, shadow, repr(spec.get("P")))
+            key = (did, shadow, repr(spec.get("P")), repr(spec.get("chain")))
             if key in seen:
                 return out
             seen.add(key)
             d = self.datasets[did]
             P = U.overlay(d.get("options") or {}, spec.get("P") or {})
             D = U.overlay(d.get("default_options") or {}, spec.get("D") or {})
+            for which, opts in spec.get("chain") or []:
+                if which == "P":
+                    P = U.overlay(P, opts)
+                else:
+                    D = U.overlay(D, opts)
             sh = shadow | _leaf_shadow(P)
             for t in _template_refs(P) | _template_refs(D):
                 add(t)
